@@ -85,8 +85,17 @@ fn bless_padding<T: MatrixElement, C: ArrayLength>(m: &DenseMatrix<T, C>) {
 
 /// Initialisation verdict of the harness itself: a logical cell of `what` that was never written.
 fn cell_check(what: &str, off: i64) {
+    cell_check_nt(what, off, false)
+}
+
+/// `nt`: the buffer was just filled by a kernel that writes with non-temporal stores (`_mm*_stream_*`: inline
+/// assembly the sanitizer does not see).  Today the wrappers default-initialise the rows first (`resize`), so the
+/// cells ARE seen written; a wrapper that (correctly) skipped that would look uninitialised to the sanitizer
+/// without being so: reported under another name, which the driver counts as a broken tie, not as a violation.
+fn cell_check_nt(what: &str, off: i64, nt: bool) {
     if off >= 0 {
-        eprintln!("ERROR: MemorySanitizer: never-written-cell at byte {} of {}", off, what);
+        let kind = if nt { "not-seen-written(non-temporal-stores-are-invisible)" } else { "never-written-cell" };
+        eprintln!("ERROR: MemorySanitizer: {} at byte {} of {}", kind, off, what);
         std::process::exit(98);
     }
 }
@@ -206,11 +215,16 @@ mod guard_alloc {
                 munmap(base, len);
                 return std::ptr::null_mut();
             }
-            if START.load(std::sync::atomic::Ordering::Relaxed) {
+            let p = if START.load(std::sync::atomic::Ordering::Relaxed) {
                 base.add(PAGE)
             } else {
                 base.add(PAGE + pages * PAGE - size)
-            }
+            };
+            // fresh matrices start as the canary pattern: rows between rows() and capacity() of a matrix that a call
+            // allocated (or reallocated: the default `realloc` copies the old block, whose spare rows the harness
+            // had filled with the same pattern) must still hold it afterwards (`fresh_spare_check`)
+            std::ptr::write_bytes(p, super::CANARY, size);
+            p
         }
         unsafe fn dealloc(&self, p: *mut u8, l: Layout) {
             if !guarded(&l) {
@@ -262,6 +276,39 @@ fn canary_set<T: MatrixElement, C: ArrayLength>(m: &DenseMatrix<T, C>) -> Option
     Some(Canary { base, cap, rb, rows, before })
 }
 
+/// A matrix the call allocated itself (`stripe()`, `sample()`, a reallocating `resize`): in the plain build the
+/// allocator hands out memory filled with the canary pattern, `Vec` never writes beyond `len`, and the harness fills
+/// the spare rows of a buffer it passes in with the same pattern — so whatever the call did, every byte between
+/// rows() and capacity() must hold the pattern, unless `shrunk_from` rows were owned before and the buffer was kept.
+/// Byte offset of the first damaged byte, or -1 (always -1 in the sanitizer builds: their allocators do not fill).
+#[allow(unused_variables)]
+fn fresh_spare_check<T: MatrixElement, C: ArrayLength>(m: &DenseMatrix<T, C>) -> i64 {
+    #[cfg(not(any(lm_asan, lm_msan)))]
+    {
+        if m.rows() > 0 && m.capacity() > m.rows() {
+            let rb = m.stride() * std::mem::size_of::<T>();
+            let base = m[0].as_ptr() as usize;
+            for off in m.rows() * rb..m.capacity() * rb {
+                if unsafe { std::ptr::read_volatile((base + off) as *const u8) } != CANARY {
+                    return off as i64;
+                }
+            }
+        }
+    }
+    -1
+}
+
+/// The records the orchestrator prints are those of the sanitizer child; a damaged canary found by a PLAIN child
+/// (the only ones that can judge a matrix allocated inside the call) ends that child: `dbg=CRASH(exit97)@op`.
+fn plain_fatal(what: &str, off: i64) -> i64 {
+    #[cfg(not(any(lm_asan, lm_msan)))]
+    if off >= 0 {
+        eprintln!("ERROR: canary: write past the owned rows (inside the capacity) at byte {} of {}", off, what);
+        std::process::exit(97);
+    }
+    off
+}
+
 /// After the call (buffer not reallocated): the rows between rows() and capacity() are not the call's to
 /// write — those that were owned before (the call shrank the matrix: `Vec::truncate` writes nothing) must
 /// hold what they held, the others the pattern.  Byte offset of the first damaged byte, or -1.
@@ -274,6 +321,9 @@ fn canary_check<T: MatrixElement, C: ArrayLength>(m: &DenseMatrix<T, C>, c: Opti
                     return off as i64;
                 }
             }
+        } else if m.rows() >= c.rows {
+            // the call reallocated the buffer (it grew): the copy of the old spare rows and the fresh tail
+            return fresh_spare_check(m);
         }
     }
     -1
@@ -632,7 +682,7 @@ fn run_ops<A: AbcX>(be: &str, seed: u64, ops: &[&str]) -> String {
                         st.striped.matrix().rows(),
                         st.striped.matrix().capacity(),
                         st.striped.wrap(),
-                        canary_check(st.striped.matrix(), can)
+                        plain_fatal("the striped sequence matrix", if how == 1 { canary_check(st.striped.matrix(), can) } else { fresh_spare_check(st.striped.matrix()) })
                     ),
                 }
             }
@@ -750,7 +800,7 @@ fn run_ops<A: AbcX>(be: &str, seed: u64, ops: &[&str]) -> String {
                 drop(guard);
                 match r {
                     None => format!("score|{}|P", params),
-                    Some(()) => format!("score|{}|{},{},{}", params, st.fs.matrix().rows(), st.fs.matrix().capacity(), canary_check(st.fs.matrix(), can)),
+                    Some(()) => format!("score|{}|{},{},{}", params, st.fs.matrix().rows(), st.fs.matrix().capacity(), plain_fatal("the f32 score matrix", canary_check(st.fs.matrix(), can))),
                 }
             }
             "uscore" | "urows" => {
@@ -765,7 +815,7 @@ fn run_ops<A: AbcX>(be: &str, seed: u64, ops: &[&str]) -> String {
                 match r {
                     None => format!("uscore|{}|P", params),
                     Some(false) => format!("uscore|{}|U", params),
-                    Some(true) => format!("uscore|{}|{},{},{}", params, st.us.matrix().rows(), st.us.matrix().capacity(), canary_check(st.us.matrix(), can)),
+                    Some(true) => format!("uscore|{}|{},{},{}", params, st.us.matrix().rows(), st.us.matrix().capacity(), plain_fatal("the u8 score matrix", canary_check(st.us.matrix(), can))),
                 }
             }
             "resz" => {
@@ -903,11 +953,12 @@ fn run_ops<A: AbcX>(be: &str, seed: u64, ops: &[&str]) -> String {
         };
         // every logical cell of every buffer of the history was written by somebody
         cell_check("the symbol vector", first_uninit_slice(&st.enc[..]));
-        cell_check("the striped sequence matrix", first_uninit_cell(st.striped.matrix()));
+        let nt_scores = matches!(p[0], "score" | "rows" | "uscore" | "urows" | "scan" | "gibbs");
+        cell_check_nt("the striped sequence matrix", first_uninit_cell(st.striped.matrix()), p[0] == "stripe");
         cell_check("the scoring matrix", first_uninit_cell(st.pssm.matrix()));
         cell_check("the discrete matrix", first_uninit_cell(st.dm.matrix()));
-        cell_check("the f32 score matrix", first_uninit_cell(st.fs.matrix()));
-        cell_check("the u8 score matrix", first_uninit_cell(st.us.matrix()));
+        cell_check_nt("the f32 score matrix", first_uninit_cell(st.fs.matrix()), nt_scores);
+        cell_check_nt("the u8 score matrix", first_uninit_cell(st.us.matrix()), nt_scores);
         out.push(rec);
     }
     force("none");
@@ -988,7 +1039,7 @@ where
         bless_padding(pssm.matrix());
         let r = no_panic(|| pli.score_rows_into(&pssm, &striped, rows.clone(), &mut fs));
         cell_check("the striped sequence matrix", first_uninit_cell(striped.matrix()));
-        cell_check("the f32 score matrix", first_uninit_cell(fs.matrix()));
+        cell_check_nt("the f32 score matrix", first_uninit_cell(fs.matrix()), true);
         let rec = match r {
             None => format!("score|{}|P", params),
             Some(()) => format!("score|{}|{},{}", params, fs.matrix().rows(), fs.matrix().capacity()),
@@ -1727,8 +1778,20 @@ fn crashme(kind: &str) {
                 _mm256_stream_si256(black_box(m[0].as_mut_ptr().add(9 * st)) as *mut __m256i, ones);
                 _mm_sfence();
                 let spare = canary_check(&m, c);
-                println!("canary grown={} shrunk={} spare={}", grown, shrunk, spare);
-                if grown != -1 || shrunk != 3 * 32 || spare != 9 * 32 {
+                // a matrix allocated by the callee (no snapshot possible): the allocator's fill is the canary
+                let mut f = DenseMatrix::<u8, U32>::with_capacity(4, 10);
+                let clean = fresh_spare_check(&f);
+                _mm256_stream_si256(black_box(f[0].as_mut_ptr().add(6 * st)) as *mut __m256i, ones);
+                _mm_sfence();
+                let fresh = fresh_spare_check(&f);
+                // ... and a reallocating growth keeps the pattern in the new spare rows
+                let c = canary_set(&f);
+                f.resize(4);
+                f.resize(25);
+                let regrown = canary_check(&f, c);
+                let want_fresh = if cfg!(any(lm_asan, lm_msan)) { -1 } else { 6 * 32 };
+                println!("canary grown={} shrunk={} spare={} fresh-clean={} fresh={} regrown={}", grown, shrunk, spare, clean, fresh, regrown);
+                if grown != -1 || shrunk != 3 * 32 || spare != 9 * 32 || clean != -1 || fresh != want_fresh || regrown != -1 {
                     std::process::exit(3);
                 }
                 return;
